@@ -6,9 +6,10 @@ import worker as W
 import timeouts as T
 
 PROP = 'C08'
-VARIANTS = ['main', 'reap']
+VARIANTS = ['main', 'reap', 'fork']
 REPLAYERS = {'pool.Worker.workloop': 'replayers/workloop.py', 'pool.Pool._terminate_pool': 'replayers/terminate_pool.py',
-             'pool.Pool._join_exited_workers': 'replayers/join_exited.py', 'pool.Worker._do_exit': 'replayers/worker_exit.py'}
+             'pool.Pool._join_exited_workers': 'replayers/join_exited.py', 'pool.Worker._do_exit': 'replayers/worker_exit.py',
+             'pool.Worker.after_fork': 'replayers/after_fork.py', 'pool.soft_timeout_sighandler': 'replayers/after_fork.py'}
 
 ASSUMPTIONS = [
     'the termination signal is modelled as arriving inside wait_for_job / wait_for_syn / the task / put (the points where the '
@@ -219,6 +220,11 @@ def ext_on_exit(ex, args, kw):
 
 
 def build(w, variant='main'):
+    if variant == 'fork':
+        # what the child installs before it takes jobs (shared with C06): exit flag cleared, then the termination handlers
+        import worker_fork
+        w.cls('g', fields={})
+        return worker_fork.fork_contracts(w, PROP)
     if variant == 'reap':
         # the finalizer behind terminate() holds the worker list, the cache and the registries it was given when the pool was
         # made: the supervision tick must keep updating those very objects (C07's contract of the tick, with that clause)
@@ -330,7 +336,9 @@ MANIFEST_ENTRY = {
             'results already delivered stay intact); exactly the workers alive at the first test are signalled, once; exactly '
             'the workers still alive afterwards (with a process object) are joined, once, after the helper threads; both queues '
             'are closed.  The supervision tick (variant reap: the contract of C04/C07) updates the worker list, the cache and the '
-            'registries in place -- they stay the objects the finalizer was given when the pool was made.',
+            'registries in place -- they stay the objects the finalizer was given when the pool was made.  Worker.after_fork '
+            '(variant fork) clears the exit flag a child may have inherited set before it installs the termination handlers '
+            '(once, with the worker\'s protection level), so that the first termination signal is never taken for a second one.',
     'note': 'Bounded-time return of terminate() and "no thread running afterwards" are liveness and out of reach; '
             'of _terminate_pool the order and targets of the calls are proved, with the three overridable hooks of the class '
             '(_help_stuff_finish, _set_result_sentinel, _stop_task_handler) as assumed contracts; Worker.__call__ is not under '
